@@ -353,7 +353,7 @@ DIRECT_EXTRA = {
     "C19": {"fifo-deeper-level", "fifo-expired-kept", "fifo-not-oldest", "fifo-within-limits"},
     "C12": {"impl-iter", "impl-iter-rev", "point-read", "bloom-false-negative", "readpaths"},
     "C11": {"config-diff"}, "C08": {"resolve", "dangling-pointer", "config-diff"}, "C09": {"gc-stats", "gc-ghost", "stale-bytes", "dead-file-kept", "gc-reopen", "blob-count", "dangling-pointer"},
-    "C14": {"ingest-missing"}, "C17": {"filter-unknown-item"}, "C10": {"corrupt-different"}, "C06": {"resolve-sv"},
+    "C14": {"ingest-missing"}, "C17": {"filter-unknown-item"}, "C10": {"corrupt-different", "corrupt-hang"}, "C06": {"resolve-sv"},
 }
 
 
@@ -497,17 +497,25 @@ FS_ASSUME = ["partial: the theorem is about the protocol model; the kernel/file 
              "crash points are enumerated at syscall granularity on captured traces (all points, sampled subsets of unsynced effects in quick tier)"]
 PROPS["C05"] = dict(engine="fs", fs_mode="crash", profiles=[("fs", 1, False)], n_ops=20, quick=1, thorough=1,
                     relevant=lambda f: True, nontrivial=lambda st: True, tb_extra=FS_TB, assumptions=FS_ASSUME,
-                    rule="histories from bin/fs_engine.py (put/remove/flush/compact/major/ingest/droprange/clear/reopen on plain and KV-separated trees), run under strace; each operation's syscall segment is checked with the extracted protocol_ok, then crash images (every syscall boundary x subsets of unsynced effects) are materialised as real directories and opened by the real crate: the recovered state must be the state before or after the operation, never a mixture, and never older than a returned operation. evaluations = histories; distinct_nontrivial = histories with at least one published version")
+                    rule="histories from bin/fs_engine.py (put/remove/flush/compact/major/ingest/droprange/clear/reopen on plain and KV-separated trees), run under strace; each operation's syscall segment is checked with the extracted protocol_ok, then crash images (every syscall boundary x subsets of unsynced effects) are materialised as real directories and opened by the real crate: the recovered state must be the state before or after the operation, never a mixture, and never older than a returned operation. evaluations = histories (all distinct by construction: one PRNG seed each); distinct_nontrivial = histories with at least one protocol-checked publishing segment and at least one crash image opened by the crate")
 PROPS["C16"] = dict(engine="fs", fs_mode="fault", profiles=[("fs", 1, False)], n_ops=20, quick=1, thorough=1,
                     relevant=lambda f: True, nontrivial=lambda st: True, tb_extra=FS_TB, assumptions=FS_ASSUME,
-                    rule="for each history each file-system syscall of the target operation (open/write/fsync/rename/unlink/mkdir) is failed in turn with strace -e inject (EIO/ENOSPC): the operation must return Err without panic, the observable tree (reads, dump) must equal the state before the operation, a retry must succeed, and the directory must still recover. evaluations = histories; each history contributes one run per injected fault point (stats.fault_runs)")
+                    rule="for each history each file-system syscall of the target operation (open/write/fsync/rename/unlink/mkdir) is failed in turn with strace -e inject (EIO/ENOSPC): the operation must return Err without panic, the observable tree (reads, dump) must equal the state before the operation, a retry must succeed, and the directory must still recover. evaluations = histories; distinct_nontrivial = histories that contributed at least one injected fault run; each history contributes one run per injected fault point (impl_stats.fault_runs)")
 PROPS["C20"] = dict(engine="fs", fs_mode="reclaim", profiles=[("fs", 1, False)], n_ops=20, quick=1, thorough=1,
                     relevant=lambda f: True, nontrivial=lambda st: True, tb_extra=FS_TB, assumptions=FS_ASSUME,
-                    rule="after every operation (no snapshot or iterator alive) the directory listing of tables/ and blobs/ is compared with the files named by the current version (and by versions still retained by an open snapshot): a file not named = leak, a named file missing = live-file-missing; the extracted reclaim function of the model is run on the same state and must delete exactly the same set. evaluations = histories; dumps = directory listings compared")
+                    rule="after every operation (no snapshot or iterator alive) the directory listing of tables/ and blobs/ is compared with the files named by the current version (and by versions still retained by an open snapshot): a file not named = leak, a named file missing = live-file-missing; the extracted reclaim function of the model is run on the same state and must delete exactly the same set. evaluations = histories; distinct_nontrivial = histories with at least 3 exact directory-listing comparisons; impl_stats.dumps = listings compared")
 PROPS["C10"] = dict(engine="corrupt", profiles=[("corrupt", 1, False)], n_ops=40, quick=24, thorough=48,
-                    relevant=lambda f: f["kind"] in ({"corrupt-different"} | COMMON_KINDS),
+                    tb_extra=["byte-level integrity model coq/Model/Integrity.v (block envelope, version file guarded by `current`, sfa ToC/trailer, blob frame); the checksum function is a Section variable: each theorem assumes exactly that the checksum of the altered bytes differs from the stored one",
+                              "harness/src/corrupt.rs: mutation enumeration and forked read-out (an abort of the child counts as an error result)"],
+                    assumptions=["partial: xxh3 collision-freeness on the compared pair is a hypothesis of the theorems", "positions are enumerated per region (every region of every file; a sample of byte offsets per region in the quick tier), each with bit flips and truncations"],
+                    rule="histories build small trees (standard and KV-separated); for every file (tables, blob files, v*, current) every region (block headers, block payloads per block type, index, filter, meta, trailer/ToC, frame header/key/value) gets bit flips and truncations at sampled offsets; after each mutation a forked child opens the tree and performs all point reads and scans: the result must be an error or equal to the original answers. evaluations = histories; mutations counted in impl_stats.mutations",
+                    relevant=lambda f: f["kind"] in ({"corrupt-different", "corrupt-hang"} | COMMON_KINDS),
                     nontrivial=lambda st: st.get("mutations", 0) >= 50 and st.get("mutations_error", 0) >= 10)
 PROPS["C06"] = dict(engine="conc", profiles=[("conc", 1, False)], n_ops=200, quick=96, thorough=3000,
+                    tb_extra=["interleaving model coq/Model/Conc.v: atomic steps are the source's critical sections (version_history read/write guard, compaction_state mutex + hidden set, flush lock, major-compaction lock, seqno counters); std::sync and crossbeam-skiplist are modelled as atomic, the hardware memory model is outside",
+                              "harness/src/conc.rs: real threads; every read is logged with the snapshot it used and the superversion it resolved to, and replayed through the certificate / oracle runner"],
+                    assumptions=["partial: the proof covers every schedule of the model's atomic steps; real runs sample OS schedules only", "known finding K2 (unclean snapshots) is reported as KNOWN-FINDING, proved as P_C06_reads_unclean_refuted"],
+                    rule="each run starts 1 writer + readers + flushers + compactors (leveled / major / drop_range) on one tree with a PRNG-chosen workload, in one of three snapshot modes (published counter, published+joined, visible counter); all reads are logged and checked against the Spec at their snapshot, the final state must contain every acknowledged write, no thread may error or panic, and the tree is reopened and compared. evaluations = threaded runs; non-trivial = at least 2 concurrent flush calls, 2 compaction calls and 50 reads",
                     relevant=lambda f: f["kind"] in ({"oracle-get", "oracle-contains", "oracle-range", "latewrite-get", "latewrite-range", "resolve-sv", "agree", "inv", "marks", "reopen-diff", "readpaths", "resolve", "dangling-pointer", "gc-stats"} | COMMON_KINDS),
                     nontrivial=lambda st: st.get("conc_flush_calls", 0) >= 2 and st.get("conc_compact_calls", 0) >= 2 and st.get("gets", 0) >= 50)
 
@@ -670,7 +678,7 @@ def fs_engine(prop, tier, seed, count_override, coq):
         hdir = os.path.join(WORK, "fs", "hist")
         all_results.append((os.path.join(hdir, "none"), "", [], [], stats))
     samples = res.get("samples", [])[:2]
-    return finish(prop, tier, seed, spec, all_results, [], coq, os.path.join(WORK, prop), t0, extra_samples=samples, evaluations=stats.get("fs_histories", 0), nontrivial_override=stats.get("fs_histories", 0))
+    return finish(prop, tier, seed, spec, all_results, [], coq, os.path.join(WORK, prop), t0, extra_samples=samples, evaluations=stats.get("fs_histories", 0), nontrivial_override=stats.get("nontrivial_histories", 0))
 
 
 # ----------------------------------------------------------------------------- corruption enumeration (C10)
@@ -715,6 +723,9 @@ def corrupt_engine(prop, tier, seed, count_override, coq):
             elif t[0] == "MUT" and t[5] == "DIFFERENT":
                 fails.append({"kind": "corrupt-different", "op": -1, "snap": 0, "optext": f"{t[1]}@{t[3]}:{t[4]}",
                               "detail": " ".join(t[6:])[:300], "line": "FAIL kind=corrupt-different " + line.strip()[:400]})
+            elif t[0] == "MUT" and t[5] == "HANG":
+                fails.append({"kind": "corrupt-hang", "op": -1, "snap": 0, "optext": f"{t[1]}@{t[3]}:{t[4]}",
+                              "detail": "the read-out did not terminate (20 s CPU / 60 s wall) " + " ".join(t[6:])[:200], "line": "FAIL kind=corrupt-hang " + line.strip()[:400]})
             elif t[0] == "MUT" and t[5] == "panic":
                 stat["panics_on_corrupt_input"] = stat.get("panics_on_corrupt_input", 0) + 1
             elif t[0] in ("BASELINE-BROKEN", "BASELINE-UNSTABLE"):
